@@ -40,9 +40,10 @@ End PlacesP.
 (* `k, m[k] = 1, 2` with k = 0 (slot 0 holds k, slot 10+j holds m[j]): Go stores 2 into m[0]; the aliasing variant
    stores it into m[1] *)
 Theorem alias_assign_differs :
-  let st : store nat := fun _ => 0 in
-  let pes : list (pexpr nat) := [fun _ => Some 0; fun s => Some (10 + s 0)] in
-  let es : list (store nat -> nat) := [fun _ => 1; fun _ => 2] in
-  multi_assign_places nat st pes es 0 = 1 /\ multi_assign_places nat st pes es 10 = 2 /\ multi_assign_places nat st pes es 11 = 0 /\
-  alias_assign nat st pes es 10 = 0 /\ alias_assign nat st pes es 11 = 2.
+  let st : store nat := fun _ => 0%nat in
+  let pes : list (pexpr nat) := [fun _ => Some 0%nat; fun s => Some (10 + s 0%nat)%nat] in
+  let es : list (store nat -> nat) := [fun _ => 1%nat; fun _ => 2%nat] in
+  multi_assign_places nat st pes es 0%nat = 1%nat /\ multi_assign_places nat st pes es 10%nat = 2%nat /\
+  multi_assign_places nat st pes es 11%nat = 0%nat /\
+  alias_assign nat st pes es 10%nat = 0%nat /\ alias_assign nat st pes es 11%nat = 2%nat.
 Proof. repeat split. Qed.
